@@ -15,6 +15,7 @@ use std::sync::atomic::{AtomicU64, Ordering};
 use std::sync::{Arc, Mutex};
 
 static CLOCK: AtomicU64 = AtomicU64::new(1);
+static SWEEPS: AtomicU64 = AtomicU64::new(0);
 fn stamp() -> u64 {
     CLOCK.fetch_add(1, Ordering::SeqCst)
 }
@@ -59,6 +60,11 @@ pub enum OpKind {
     SetOptGet(Vec<u8>),
     /// one element of an MGET reply (nil for a missing key and for a key that is not a string)
     MGetElem,
+    /// SET k v PX 1..3: the value may vanish at any later instant (production clock)
+    SetPxShort(Vec<u8>),
+    /// SET k v PX 600000: a deadline that never arrives during a history - but the key now *has* one, so the
+    /// expiry machinery (lazy checks, the TTL sweep running beside the clients) looks at it
+    SetPxLong(Vec<u8>),
 }
 
 #[derive(Clone, Debug, PartialEq, Eq, Hash)]
@@ -86,6 +92,8 @@ pub struct Rec {
 pub enum KeyState {
     Nil,
     Str(Vec<u8>),
+    /// a string under a deadline that may pass at any moment
+    Vol(Vec<u8>),
     List(VecDeque<Vec<u8>>),
 }
 
@@ -101,6 +109,29 @@ fn norm(t: &Tree) -> Tree {
     }
 }
 
+/// Sequential specification with expiry: a volatile string may have expired just before the operation (second outcome),
+/// and operations that keep a key's deadline keep it volatile (GETSET / the swap script: this server keeps the deadline,
+/// Redis clears it - both accepted).
+pub fn apply_nd(st: &KeyState, op: &OpKind) -> Vec<(KeyState, Tree)> {
+    match st {
+        KeyState::Vol(s) => {
+            let (ns, r) = apply(&KeyState::Str(s.clone()), op);
+            let mut outs = vec![];
+            match (&ns, op) {
+                (KeyState::Str(x), OpKind::Get | OpKind::MGetElem | OpKind::Append(_) | OpKind::Incr | OpKind::SetNx(_) | OpKind::SetOptNx(_) | OpKind::LPush(_) | OpKind::LPop | OpKind::LLen) => outs.push((KeyState::Vol(x.clone()), r)),
+                (KeyState::Str(x), OpKind::GetSet(_) | OpKind::EvalSwap(_)) => {
+                    outs.push((KeyState::Vol(x.clone()), r.clone()));
+                    outs.push((ns.clone(), r));
+                }
+                _ => outs.push((ns, r)),
+            }
+            outs.push(apply(&KeyState::Nil, op));
+            outs
+        }
+        _ => vec![apply(st, op)],
+    }
+}
+
 /// Sequential specification of one key.
 pub fn apply(st: &KeyState, op: &OpKind) -> (KeyState, Tree) {
     let bulk = |b: &Vec<u8>| Tree::Bulk(Some(b.clone()));
@@ -109,7 +140,9 @@ pub fn apply(st: &KeyState, op: &OpKind) -> (KeyState, Tree) {
         (OpKind::Get, KeyState::Nil) => (st.clone(), Tree::Bulk(None)),
         (OpKind::Get, KeyState::Str(s)) => (st.clone(), bulk(s)),
         (OpKind::Get, KeyState::List(_)) => (st.clone(), wrongtype()),
-        (OpKind::Set(v), _) => (KeyState::Str(v.clone()), ok),
+        (OpKind::Set(v), _) | (OpKind::SetPxLong(v), _) => (KeyState::Str(v.clone()), ok),
+        (OpKind::SetPxShort(v), _) => (KeyState::Vol(v.clone()), ok),
+        (_, KeyState::Vol(_)) => unreachable!("volatile states go through apply_nd"),
         (OpKind::GetSet(v), KeyState::Nil) | (OpKind::EvalSwap(v), KeyState::Nil) => (KeyState::Str(v.clone()), Tree::Bulk(None)),
         (OpKind::GetSet(v), KeyState::Str(s)) | (OpKind::EvalSwap(v), KeyState::Str(s)) => (KeyState::Str(v.clone()), bulk(s)),
         (OpKind::GetSet(_), KeyState::List(_)) => (st.clone(), wrongtype()),
@@ -213,21 +246,28 @@ pub fn check_key_po(ops: &[Rec], budget: u64, program_order: bool) -> Verdict {
             }
             let po_ok = !program_order || mask & before[i] == before[i];
             if mask & bit(i) == 0 && ops[i].call < min_ret && po_ok {
-                let (ns, res) = apply(&st, &ops[i].op);
-                let ok = match &ops[i].ret {
-                    None => true,
-                    Some((_, got)) => norm(got) == res,
-                };
-                if ok {
-                    let nm = mask | bit(i);
-                    if memo.insert((nm, ns.clone())) {
-                        // resume this frame later at p+1, descend now
-                        stack.push((mask, st.clone(), order.clone(), p + 1));
-                        let mut no = order.clone();
-                        no.push(i);
-                        stack.push((nm, ns, no, 0));
-                        break;
+                let mut descended = false;
+                let mut frames: Vec<(u128, KeyState, Vec<usize>, usize)> = vec![];
+                for (ns, res) in apply_nd(&st, &ops[i].op) {
+                    let ok = match &ops[i].ret {
+                        None => true,
+                        Some((_, got)) => norm(got) == res,
+                    };
+                    if ok {
+                        let nm = mask | bit(i);
+                        if memo.insert((nm, ns.clone())) {
+                            let mut no = order.clone();
+                            no.push(i);
+                            frames.push((nm, ns, no, 0));
+                            descended = true;
+                        }
                     }
+                }
+                if descended {
+                    // resume this frame later at p+1, descend now (every admissible outcome of this operation)
+                    stack.push((mask, st.clone(), order.clone(), p + 1));
+                    stack.extend(frames);
+                    break;
                 }
             }
             p += 1;
@@ -249,6 +289,10 @@ fn parse_opkind(s: &str) -> OpKind {
     };
     if s.starts_with("MGetElem") {
         OpKind::MGetElem
+    } else if s.starts_with("SetPxShort") {
+        OpKind::SetPxShort(arg(s))
+    } else if s.starts_with("SetPxLong") {
+        OpKind::SetPxLong(arg(s))
     } else if s.starts_with("SetOptNx") {
         OpKind::SetOptNx(arg(s))
     } else if s.starts_with("SetOptXx") {
@@ -336,6 +380,18 @@ async fn do_op(st: &ShardedActorState, key: &str, op: &OpKind, via: &Via, sha: O
                 OpKind::EvalSwap(v) if sha.is_some() && v.len() % 2 == 0 => Command::EvalSha { sha1: sha.unwrap().to_string(), keys: vec![k], args: vec![SDS::new(v.clone())] },
                 OpKind::EvalSwap(v) => Command::Eval { script: SWAP_SCRIPT.to_string(), keys: vec![k], args: vec![SDS::new(v.clone())] },
                 OpKind::MGetElem => Command::MGet(vec![k]),
+                OpKind::SetPxShort(v) | OpKind::SetPxLong(v) => Command::Set {
+                    key: k,
+                    value: SDS::new(v.clone()),
+                    ex: None,
+                    px: Some(if matches!(op, OpKind::SetPxShort(_)) { 1 + (v.len() as i64 % 3) } else { 600_000 }),
+                    exat: None,
+                    pxat: None,
+                    nx: false,
+                    xx: false,
+                    get: false,
+                    keepttl: false,
+                },
                 OpKind::SetOptNx(v) | OpKind::SetOptXx(v) | OpKind::SetOptGet(v) => Command::Set {
                     key: k,
                     value: SDS::new(v.clone()),
@@ -380,7 +436,9 @@ fn gen_op(rng: &mut Rng, client: usize, ctr: &mut u32, key: usize, lua: bool) ->
             _ => (OpKind::Get, via),
         }
     } else {
-        match rng.gen_range(0..24) {
+        match rng.gen_range(0..27) {
+            24 | 25 => (OpKind::SetPxShort(uniq), Via::Generic),
+            26 => (OpKind::SetPxLong(uniq), Via::Generic),
             20 | 21 => (OpKind::SetOptNx(uniq), Via::Generic),
             22 => (OpKind::SetOptXx(uniq), Via::Generic),
             23 => (OpKind::SetOptGet(uniq), Via::Generic),
@@ -418,6 +476,13 @@ fn quiet_secs() -> u64 {
 }
 
 async fn join_or_stuck(hs: Vec<tokio::task::JoinHandle<()>>, extra: &dyn Fn() -> u64) -> bool {
+    join_or_stuck2(hs, extra, true).await
+}
+
+/// `count_sites = false`: only the clients' own stamps count as activity (used when a background sweeper keeps passing
+/// hook sites for as long as the history lasts).
+async fn join_or_stuck2(hs: Vec<tokio::task::JoinHandle<()>>, extra: &dyn Fn() -> u64, count_sites: bool) -> bool {
+    let activity = || if count_sites { activity() } else { CLOCK.load(Ordering::SeqCst) };
     let mut last = activity() + extra();
     let mut last_change = std::time::Instant::now();
     let mut nap = 1u64;
@@ -459,6 +524,24 @@ async fn run_history(cfg: &HistCfg, seed: u64) -> (Vec<Rec>, Vec<Rec>) {
     let log: Arc<Mutex<Vec<Rec>>> = Arc::new(Mutex::new(vec![]));
     let pending: Arc<Mutex<HashMap<usize, Vec<Rec>>>> = Arc::new(Mutex::new(HashMap::new()));
     let mut hs = vec![];
+    // in half of the histories the TTL sweep (what the server's TTL manager calls periodically) runs beside the clients,
+    // as fast as it can: it may only ever remove keys whose deadline has passed
+    let sweep_stop = Arc::new(std::sync::atomic::AtomicBool::new(false));
+    let sweeper = if seed % 2 == 0 {
+        let st = st.clone();
+        let stop = sweep_stop.clone();
+        Some(tokio::spawn(async move {
+            let mut n = 0u64;
+            while !stop.load(Ordering::SeqCst) {
+                st.evict_expired_all_shards().await;
+                n += 1;
+                tokio::task::yield_now().await;
+            }
+            SWEEPS.fetch_add(n, Ordering::SeqCst);
+        }))
+    } else {
+        None
+    };
     for c in 0..cfg.clients {
         let st = st.clone();
         let log = log.clone();
@@ -540,7 +623,11 @@ async fn run_history(cfg: &HistCfg, seed: u64) -> (Vec<Rec>, Vec<Rec>) {
             }
         }));
     }
-    let stuck = join_or_stuck(hs, &|| 0).await;
+    let stuck = join_or_stuck2(hs, &|| 0, sweeper.is_none()).await;
+    sweep_stop.store(true, Ordering::SeqCst);
+    if let Some(h) = sweeper {
+        let _ = h.await;
+    }
     let mut v = log.lock().unwrap().clone();
     let mut lost = vec![];
     if stuck {
@@ -717,6 +804,9 @@ pub fn lin_leg(args: &Args) {
     let names = ["exec_sent", "exec_done", "pooled_sent", "pooled_done", "actor_reply", "pool_release", "fast_sent"];
     for (i, nme) in names.iter().enumerate() {
         rep.add(&format!("h2:{}", nme), hits1[i] - hits0[i]);
+        if i == 0 {
+            rep.add("ttl_sweeps_beside_clients", SWEEPS.load(Ordering::SeqCst));
+        }
     }
     if rep.counters.get("overlapping_pairs").copied().unwrap_or(0) == 0 {
         rep.inconclusive("no two operations of different clients overlapped in time");
@@ -764,6 +854,8 @@ fn conn_frame(k: &[u8], op: &OpKind) -> Vec<u8> {
         OpKind::SetOptNx(v) => myresp::frame(&[b"SET", k, v, b"NX"]),
         OpKind::SetOptXx(v) => myresp::frame(&[b"SET", k, v, b"XX"]),
         OpKind::SetOptGet(v) => myresp::frame(&[b"SET", k, v, b"GET"]),
+        OpKind::SetPxShort(v) => myresp::frame(&[b"SET", k, v, b"PX", if v.len() % 3 == 0 { b"1" } else if v.len() % 3 == 1 { b"2" } else { b"3" }]),
+        OpKind::SetPxLong(v) => myresp::frame(&[b"SET", k, v, b"PX", b"600000"]),
     }
 }
 
